@@ -195,6 +195,7 @@ def _guard_check(ctx, vs, mo, src, unesc):
 def analyse(ctx, out):
     src, sk, mo, vs, stats, panics, rej, tyc, loc = {}, [], [], [], {}, [], 0, [], []
     fnc = {"FK": [], "FS": [], "FI": []}
+    pdiff = []
     for line in out.splitlines():
         f = line.split("\t")
         if f[0] == "SRC":
@@ -209,6 +210,8 @@ def analyse(ctx, out):
             loc.append((f[1], f[2], f[3], f[4]))
         elif f[0] in ("FK", "FS", "FI"):
             fnc[f[0]].append((f[1], f[2]))
+        elif f[0] == "PD":
+            pdiff.append(f)
         elif f[0] == "V":
             vs.append(dict(case=f[1], mode=f[2], stage=f[3], fn=int(f[4]), name=f[5], kind=f[6], detail=f[7] if len(f) > 7 else ""))
         elif f[0] == "STAT":
@@ -225,6 +228,17 @@ def analyse(ctx, out):
     for p in panics[:3]:
         ctx.violation("air-panic:" + p[3], "panic in " + p[3] + ": " + p[4][:200],
                       {"source": unesc(src.get(p[1], "")), "mode": p[2], "panic": p[4]})
+
+    # ---- the driver's AirLowerStage must give what the library path (lower + try_compute_layouts + monomorphize) gives
+    if pdiff:
+        f0 = sorted(pdiff, key=lambda f: (not f[1].split(":", 1)[-1].startswith("corpus:"), len(src.get(f[1], ""))))[0]
+        ctx.violation("pipeline:air-lower-stage-differs-from-library-path",
+                      f"the AIR returned by the driver's AirLowerStage differs from lower + try_compute_layouts + monomorphize "
+                      f"on {len({f[1] for f in pdiff})} programs",
+                      {"source": unesc(src.get(f0[1], "")), "case": f0[1], "mode": f0[2],
+                       "library_path": f0[3][:1500] if len(f0) > 3 else "", "pipeline_stage": f0[4][:1500] if len(f0) > 4 else "",
+                       "oracle": "the same typed program through both entry points"})
+    ctx.cov["pipeline_stage_differences"] = len(pdiff)
 
     # ---- (b) skeleton contract tie
     sk_cases = [(q, f"(({o}) : list (list (list N)))") for (_, _, q, o) in sk]
